@@ -17,6 +17,7 @@ import (
 // value reaching tracked state, refines the partition and the exploration is
 // run again.
 type byteClasses struct {
+	muteIdentity bool // liveness sampling runs arms from unknown states: their comparisons must not refine the partition
 	tables     []string
 	distinct   [256]bool
 	thresholds map[int]bool
@@ -87,7 +88,7 @@ func (c *byteClasses) request(kind string, v int, why string) {
 			return
 		}
 	case "identity":
-		if c.identity {
+		if c.identity || c.muteIdentity {
 			return
 		}
 	}
